@@ -42,8 +42,11 @@ def _any_stream(draw, framing, uid, direction):
             kind, f = draw(gens.message(direction, spec_mode=True))
             if framing == 'rtu' and kind.endswith(':8'):
                 f = dict(f, data=(f['data'][:1] or [0]))
-            fr = refframe.build(framing, uid, specpdu.encode(kind, f), 0x1100 + i, 0)
-            if len(fr) <= 300 and not (framing == 'binary' and refframe.binary_fragile(fr)):
+            pdu_ = specpdu.encode(kind, f)
+            if len(pdu_) > 253:
+                continue              # no valid frame carries a PDU of more than 253 bytes
+            fr = refframe.build(framing, uid, pdu_, 0x1100 + i, 0)
+            if not (framing == 'binary' and refframe.binary_fragile(fr)):
                 frames.append(fr)
                 break
     return frames or [refframe.build(framing, uid, bytes.fromhex('0600010002'), 0x1100, 0)]
